@@ -315,3 +315,49 @@ func verif_C05_limiter() {
 	}
 	verifReach("C05.limiter-end")
 }
+
+// verif_C05_cut: the octet stream ends (connection lost) or stalls (read
+// timeout) strictly inside a chunk's declared octets, LAST or not. EOF is
+// never presented to the backend, and no 2xx is given for the cut chunk.
+func verif_C05_cut() {
+	verifPreemptBound(0)
+	last := nondetBool()
+	n := 3
+	have := nondetInt(0, n-1) // octets of the chunk that arrive
+	payload := nondetBytesN(have)
+	line := "BDAT 3"
+	if last {
+		line += " LAST"
+	}
+	in := []byte("EHLO c\r\nMAIL FROM:<s@v>\r\nRCPT TO:<r@v>\r\nBDAT 2\r\nab" + line + "\r\n")
+	in = append(in, payload...)
+	var final error = io.EOF
+	if nondetBool() {
+		final = verifTimeoutErr{}
+	}
+	var got []byte
+	var rerr error
+	be := &vbackend{}
+	be.dataFn = func(_ *vsession, r io.Reader) error {
+		got, rerr = verifReadAll(r, 2)
+		if rerr == io.EOF {
+			return nil
+		}
+		return rerr
+	}
+	s, _ := verifServer(be)
+	vc, _, _ := verifServe(s, in, final)
+	reps, wf := verifParseReplies(vc.out)
+	verifObserve("c05cut", last, have, final == io.EOF, wf, len(reps), len(got), rerr == io.EOF)
+	verifAssert(wf, "C05.cut-wellformed")
+	verifAssert(be.count("Data") == 1, "C05.cut-one-data-call")
+	verifAssert(rerr != nil && rerr != io.EOF, "C05.cut-chunk-never-eof")
+	verifAssert(verifIsPrefix(got, append([]byte("ab"), payload...)), "C05.cut-octets-are-a-prefix")
+	if wf && len(reps) > 5 {
+		for _, r := range reps[5:] {
+			verifAssert(r.code/100 != 2, "C05.cut-chunk-no-positive-reply")
+		}
+	}
+	verifAssert(verifGoroutinesAlive() == 0, "C05.cut-no-goroutine-left")
+	verifReach("C05.cut-end")
+}
